@@ -29,11 +29,12 @@ Proof. exact dir_name_roundtrip. Qed.
 Print Assumptions C16_dir_name_roundtrip.
 
 (* 2. the whole shape of cloc.csv for every tree, every option: header, then per reported directory
-      its name, the sum of its cells, and one cell per header key (column alignment + zero fill) *)
+      its name, the sum of its cells, and one cell per header key (column alignment + zero fill);
+      header keys = the whole-tree run's languages followed by what MergeDirKeys appends *)
 Theorem C16_bydir_shape : forall o t,
     dirs_ok t ->
     process_by_directory o t =
-    ("package" :: "summary" :: base_keys o t) ::
+    ("package" :: "summary" :: header_keys o t) ::
     map (fun d => d :: string_of_nat (list_sum (dir_cells o t d)) :: map string_of_nat (dir_cells o t d))
         (report_dirs t).
 Proof. exact bydir_shape. Qed.
@@ -56,14 +57,28 @@ Proof. exact rows_nodup. Qed.
 Print Assumptions C16_rows_nodup.
 
 (* 4. header_languages: "package","summary", then exactly (and once each) the languages of the files
-      the whole-tree run counts *)
+      that the whole-tree run or the run of a reported directory counts; the whole-tree run's languages
+      come first; the languages of a reported subdirectory are named whatever its name is (also when
+      the whole-tree run skips it because its path ends with .git/.hg/.svn -- fix 5353339) *)
 Theorem C16_header_languages : forall o t,
     firstn 2 (csv_header o t) = ["package"; "summary"] /\
     NoDup (skipn 2 (csv_header o t)) /\
     forall l, In l (skipn 2 (csv_header o t)) <->
-              exists f, In f (ct_files t) /\ visible o [] f = true /\ cf_lang f = l.
+              exists f, In f (ct_files t) /\ cf_lang f = l /\
+                        (visible o [] f = true \/
+                         exists d, In d (report_dirs t) /\ visible o [d] f = true).
 Proof. exact header_languages. Qed.
 Print Assumptions C16_header_languages.
+
+Theorem C16_header_keys_prefix : forall o t, exists extra, header_keys o t = (base_keys o t ++ extra)%list.
+Proof. exact header_keys_prefix. Qed.
+Print Assumptions C16_header_keys_prefix.
+
+Theorem C16_header_names_dir_languages : forall o t d f,
+    In d (report_dirs t) -> In f (ct_files t) -> visible o [d] f = true ->
+    In (cf_lang f) (skipn 2 (csv_header o t)).
+Proof. exact header_names_dir_languages. Qed.
+Print Assumptions C16_header_names_dir_languages.
 
 (* 5. cell_correct: the cell of directory d under header language k is the number of code lines of
       language k among the files the run of d counts; row cells are aligned with the header *)
@@ -79,9 +94,10 @@ Theorem C16_row_width : forall o t r,
 Proof. exact row_width. Qed.
 Print Assumptions C16_row_width.
 
-(* ... which is the ground truth of the specification on every tree without deny-list hits *)
+(* ... which is the ground truth of the specification whenever the deny list is not hit BELOW the
+   immediate subdirectories (a subdirectory named repo.git is fine) *)
 Theorem C16_cell_matches_ground_truth : forall o t d k,
-    tree_clean o t -> lang_code o [d] t k = expected_cell o t d k.
+    tree_clean_below o t -> lang_code o [d] t k = expected_cell o t d k.
 Proof. exact cell_matches_ground_truth. Qed.
 Print Assumptions C16_cell_matches_ground_truth.
 
@@ -100,7 +116,7 @@ Proof. exact summary_is_sum. Qed.
 Print Assumptions C16_summary_is_sum.
 
 Theorem C16_summary_is_total : forall o t d,
-    tree_clean o t -> list_sum (dir_cells o t d) = expected_total o t d.
+    tree_clean_below o t -> In d (report_dirs t) -> list_sum (dir_cells o t d) = expected_total o t d.
 Proof. exact dir_cells_total. Qed.
 Print Assumptions C16_summary_is_total.
 
@@ -116,10 +132,15 @@ Proof. exact columns_agree_with_base. Qed.
 Print Assumptions C16_columns_agree_with_base.
 
 (* 8. the whole by-directory statement, as the decider the check applies to the implementation: it
-      finds no failing clause in the model's report for every clean tree (languages found only in an
-      IDE/report directory included), every --include-ext filter, every DIR *)
+      finds no failing clause in the model's report for every tree whose deny-list hits (if any) are
+      names of immediate subdirectories (languages found only in an IDE/report directory included),
+      every --include-ext filter, every DIR *)
+Theorem C16_tree_clean_weaken : forall o t, tree_clean o t -> tree_clean_below o t.
+Proof. exact tree_clean_weaken. Qed.
+Print Assumptions C16_tree_clean_weaken.
+
 Theorem C16_bydir_model_meets_spec : forall o t,
-    dirs_ok t -> tree_clean o t ->
+    dirs_ok t -> tree_clean_below o t -> files_in_dirs t ->
     c16_bydir_verdict o t (csv_header o t) (csv_rows o t) = [].
 Proof. exact bydir_model_meets_spec. Qed.
 Print Assumptions C16_bydir_model_meets_spec.
@@ -225,7 +246,7 @@ Example C16_example_top :
 Proof. exact ex_tree_top. Qed.
 Print Assumptions C16_example_top.
 
-(* confirmed defects of the implementation, as refuted conjectures about the (bug-faithful) model *)
+(* confirmed open defect of the implementation, as a refuted conjecture about the (bug-faithful) model *)
 Theorem C16_top_location_refuted :
   top_tables cut_opts cut_tree = [("Go", [(2, "x.go")])] /\
   c16_top_verdict cut_opts cut_tree
@@ -242,10 +263,15 @@ Example C16_example_ignored_only_language :
 Proof. exact ignored_only_language_accepted. Qed.
 Print Assumptions C16_example_ignored_only_language.
 
-Theorem C16_vcs_suffix_refuted :
-  process_by_directory vcs_opts vcs_tree = [["package"; "summary"]; ["old.svn"; "0"]] /\
-  lang_code vcs_opts ["old.svn"] vcs_tree "Shell" = 3 /\
-  c16_bydir_verdict vcs_opts vcs_tree (csv_header vcs_opts vcs_tree) (csv_rows vcs_opts vcs_tree)
-  = ["header_languages"; "summary_is_total"].
-Proof. exact vcs_suffix_refuted. Qed.
-Print Assumptions C16_vcs_suffix_refuted.
+(* fixed by 5353339 (was D-C16-3): the languages of a subdirectory named like *.svn are in the header
+   although the whole-tree run skips it (base keys = Go only), its row is complete, and the decider
+   accepts the report; the tree satisfies tree_clean_below but not tree_clean *)
+Example C16_vcs_suffix_accepted :
+  dirs_ok vcs_tree /\ tree_clean_below vcs_opts vcs_tree /\ files_in_dirs vcs_tree /\
+  tree_clean_b vcs_opts vcs_tree = false /\
+  base_keys vcs_opts vcs_tree = ["Go"] /\
+  process_by_directory vcs_opts vcs_tree =
+  [["package"; "summary"; "Go"; "Shell"]; ["a"; "2"; "2"; "0"]; ["old.svn"; "4"; "1"; "3"]] /\
+  c16_bydir_verdict vcs_opts vcs_tree (csv_header vcs_opts vcs_tree) (csv_rows vcs_opts vcs_tree) = [].
+Proof. exact vcs_suffix_accepted. Qed.
+Print Assumptions C16_vcs_suffix_accepted.
